@@ -60,7 +60,7 @@ func c16Cases(tier string, seed uint64, flavor string) []lib.Case {
 	var cases []lib.Case
 	nperturb := 2
 	if tier == "thorough" {
-		nperturb = 8
+		nperturb = 16
 	}
 	add := func(s c16Spec) {
 		s.Seed = lib.Mix(seed, 16)
